@@ -1339,6 +1339,174 @@ impl<'a> Gen<'a> {
     }
 }
 
+// ------------------------------------------------------------------------------------------
+// typed signatures -> term of Model/AirTypes.v (tie (d): how type names are lowered)
+fn structs_in_expr(e: &TypedExpr, out: &mut Vec<String>) {
+    use TypedExprKind as K;
+    match &e.kind {
+        K::Int(_) | K::Float(_) | K::Bool(_) | K::String(_) | K::Null | K::Identifier(_) => {}
+        K::FmtString(parts) => {
+            for p in parts {
+                if let TypedFmtStringPart::Expr(x) = p {
+                    structs_in_expr(x, out);
+                }
+            }
+        }
+        K::Binary { left, right, .. } | K::And { left, right } | K::Or { left, right } => {
+            structs_in_expr(left, out);
+            structs_in_expr(right, out);
+        }
+        K::Unary { operand, .. } => structs_in_expr(operand, out),
+        K::Call { callee, args } => {
+            for a in args {
+                structs_in_expr(a, out);
+            }
+            structs_in_expr(callee, out);
+        }
+        K::Assign { value, .. } => structs_in_expr(value, out),
+        K::Grouping(i) | K::Lambda(i) => structs_in_expr(i, out),
+        K::If { condition, then_branch, else_branch } => {
+            structs_in_expr(condition, out);
+            structs_in_expr(then_branch, out);
+            structs_in_expr(else_branch, out);
+        }
+        K::LambdaInner { body, .. } => structs_in_stmts(body, out),
+        K::Member { object, .. } => structs_in_expr(object, out),
+        K::ArrayLiteral { elements, .. } | K::VecLiteral { elements, .. } => {
+            for x in elements {
+                structs_in_expr(x, out);
+            }
+        }
+        K::ArraySized { size, .. } => structs_in_expr(size, out),
+        K::Index { object, index } => {
+            structs_in_expr(object, out);
+            structs_in_expr(index, out);
+        }
+        K::IndexAssign { object, index, value } => {
+            structs_in_expr(object, out);
+            structs_in_expr(index, out);
+            structs_in_expr(value, out);
+        }
+        K::Range { start, end, .. } => {
+            if let Some(x) = start {
+                structs_in_expr(x, out);
+            }
+            if let Some(x) = end {
+                structs_in_expr(x, out);
+            }
+        }
+        K::Slice { object, range } => {
+            structs_in_expr(object, out);
+            structs_in_expr(range, out);
+        }
+        K::StructLiteral { fields, .. } => {
+            for (_, v) in fields {
+                structs_in_expr(v, out);
+            }
+        }
+        K::Cast { expr, .. } => structs_in_expr(expr, out),
+    }
+}
+
+fn structs_in_stmts(stmts: &[TypedStmt], out: &mut Vec<String>) {
+    use TypedStmtKind as K;
+    for s in stmts {
+        match &s.kind {
+            K::Expression(e) => structs_in_expr(e, out),
+            K::Let { initializer, .. } => structs_in_expr(initializer, out),
+            K::Block(b) => structs_in_stmts(b, out),
+            K::If { condition, then_branch, else_branch } => {
+                structs_in_expr(condition, out);
+                structs_in_stmts(std::slice::from_ref(then_branch), out);
+                if let Some(e) = else_branch {
+                    structs_in_stmts(std::slice::from_ref(e), out);
+                }
+            }
+            K::While { condition, body } => {
+                structs_in_expr(condition, out);
+                structs_in_stmts(std::slice::from_ref(body), out);
+            }
+            K::For { start, end, step, body, .. } => {
+                structs_in_expr(start, out);
+                structs_in_expr(end, out);
+                structs_in_stmts(std::slice::from_ref(body), out);
+                if let Some(x) = step.as_ref() {
+                    structs_in_expr(x, out);
+                }
+            }
+            K::ForEach { iterable, body, .. } => {
+                structs_in_expr(iterable, out);
+                structs_in_stmts(std::slice::from_ref(body), out);
+            }
+            K::Return(Some(e)) => structs_in_expr(e, out),
+            K::Return(None) | K::Break | K::Continue | K::Needs(_) => {}
+            K::Function(f) => structs_in_stmts(&f.body, out),
+            K::StructDecl { name, .. } => out.push(name.clone()),
+        }
+    }
+}
+
+fn ity_term(t: &InferType, enc: &mut MonoEnc) -> String {
+    match t {
+        InferType::I8 => "(IPrim 0)".into(),
+        InferType::I16 => "(IPrim 1)".into(),
+        InferType::I32 => "(IPrim 2)".into(),
+        InferType::I64 => "(IPrim 3)".into(),
+        InferType::U8 => "(IPrim 4)".into(),
+        InferType::U16 => "(IPrim 5)".into(),
+        InferType::U32 => "(IPrim 6)".into(),
+        InferType::U64 => "(IPrim 7)".into(),
+        InferType::F32 => "(IPrim 8)".into(),
+        InferType::F64 => "(IPrim 9)".into(),
+        InferType::Bool => "(IPrim 10)".into(),
+        InferType::String => "(IPrim 11)".into(),
+        InferType::Null | InferType::Tuple(_) | InferType::Range => "IVoid".into(),
+        InferType::Function { params, ret } => {
+            let mut s = String::from("INil");
+            for p in params.iter().rev() {
+                s = format!("(ICons {} {})", ity_term(p, enc), s);
+            }
+            format!("(IFun {} {})", s, ity_term(ret, enc))
+        }
+        InferType::Array(i) | InferType::Vec(i) => format!("(ISeq {})", ity_term(i, enc)),
+        InferType::Struct(n) => format!("(IName {})", enc.id(n)),
+        InferType::Var(_) | InferType::Dynamic => "IDyn".into(),
+    }
+}
+
+/// (items term, observed signatures of the top-level functions) or None when a top-level
+/// function cannot be matched to its AirFunction by name
+fn types_case(tp: &TypedProgram, pre: &AirProgram) -> Option<(String, String)> {
+    let mut enc = MonoEnc { names: HashMap::new() };
+    let mut items = Vec::new();
+    let mut obs = Vec::new();
+    for st in &tp.stmts {
+        match &st.kind {
+            TypedStmtKind::StructDecl { name, .. } => items.push(format!("TIStruct {}", enc.id(name))),
+            TypedStmtKind::Function(f) => {
+                let mut found = pre.functions.iter().filter(|a| a.name == f.name);
+                let af = found.next()?;
+                if found.next().is_some() {
+                    return None;
+                }
+                let tps: Vec<u32> = f.type_params.iter().map(|n| enc.id(n)).collect();
+                let ps: Vec<String> = f.params.iter().map(|p| ity_term(&p.ty, &mut enc)).collect();
+                let ret = ity_term(&f.return_type, &mut enc);
+                let mut bs = Vec::new();
+                structs_in_stmts(&f.body, &mut bs);
+                let bs: Vec<u32> = bs.iter().map(|n| enc.id(n)).collect();
+                items.push(format!("TIFn {} [{}] {} {}", nlist(&tps), ps.join(";"), ret, nlist(&bs)));
+                let skip = if f.captures.is_empty() { 0 } else { 1 };
+                let mut tys: Vec<AirType> = af.params.iter().skip(skip).map(|p| p.ty.clone()).collect();
+                tys.push(af.ret_ty.clone());
+                obs.push(enc.tys(&tys));
+            }
+            _ => {}
+        }
+    }
+    Some((format!("[{}]", items.join(";")), format!("[{}]", obs.join(";"))))
+}
+
 fn collect_tp_names(stmts: &[TypedStmt], out: &mut Vec<String>) {
     for s in stmts {
         match &s.kind {
@@ -1399,6 +1567,9 @@ fn run_case(case: &str, code: &str, modes: &[&str], st: &mut Stats) {
         // contract tie for the skeleton
         let rows: Vec<String> = pre.functions.iter().map(|f| rows_term(&canon_fn(f).0)).collect();
         println!("SK\t{}\t{}\t{}\t[{}]", case, mode, sk, rows.join(";"));
+        if let Some((q, o)) = types_case(&tp, &pre) {
+            println!("TY\t{}\t{}\t{}\t{}", case, mode, q, o);
+        }
         // pre-mono index of a function id
         let idx_of = |id: u32| pre.functions.iter().position(|f| f.id.0 == id);
         let mut tp_names: Vec<String> = Vec::new();
